@@ -84,9 +84,9 @@ def audit(pid, names, module):
     if rc != 0:
         raise FrameworkBroken(f"axiom audit failed for {pid}:\n{out[-2000:]}")
     res = {}
-    for m in re.finditer(r"'([^']+)' depends on axioms: \[([^\]]*)\]", out, flags=re.S):
+    for m in re.finditer(r"^'(\S+)' depends on axioms: \[([^\]]*)\]", out, flags=re.S | re.M):
         res[m.group(1)] = [a.strip() for a in m.group(2).replace("\n", " ").split(",") if a.strip()]
-    for m in re.finditer(r"'([^']+)' does not depend on any axioms", out):
+    for m in re.finditer(r"^'(\S+)' does not depend on any axioms", out, flags=re.M):
         res[m.group(1)] = []
     missing = [n for n in names if n not in res]
     if missing:
